@@ -20,6 +20,10 @@ POSITIONS = [
     ("argument", "SELECT f9 ( {e} , z9 ) FROM t9", ["select", "value", "f9", 0]),
     ("case_then", "SELECT CASE WHEN w9 THEN {e} ELSE z9 END FROM t9", ["select", "value", "case", 0, "then"]),
     ("case_when", "SELECT CASE WHEN {e} THEN y9 ELSE z9 END FROM t9", ["select", "value", "case", 0, "when"]),
+    ("case_else", "SELECT CASE WHEN w9 THEN y9 ELSE {e} END FROM t9", ["select", "value", "case", 1]),
+    ("switch_else", "SELECT CASE w9 WHEN 1 THEN y9 ELSE {e} END FROM t9", ["select", "value", "case", 1]),
+    ("switch_subject", "SELECT CASE {e} WHEN 1 THEN y9 ELSE z9 END FROM t9", ["select", "value", "case", 0, "when", "eq", 0]),
+    ("switch_when", "SELECT CASE w9 WHEN {e} THEN y9 ELSE z9 END FROM t9", ["select", "value", "case", 0, "when", "eq", 1]),
     ("between_operand", "SELECT x9 BETWEEN ( {e} ) AND y9 FROM t9", ["select", "value", "between", 1]),
     ("in_operand", "SELECT x9 IN ( {e} , y9 ) FROM t9", ["select", "value", "in", 1, 0]),
     ("cast_operand", "SELECT CAST( {e} AS int ) FROM t9", ["select", "value", "cast", 0]),
@@ -129,6 +133,10 @@ def run(ctx, scale=1):
     # user functions whose names are words the library itself uses as keys of its trees / as internal markers
     for fname in INTERNAL_WORDS:
         all_texts += [(t, None) for t in ("%s(a1, 0)" % fname, "%s(a1)" % fname, "( %s(a1, 0) )" % fname, "%s(a1) + 1" % fname, "f9(%s(a1), 2)" % fname, "%s()" % fname)]
+    # CASE / CAST / sub-scripts as the expression itself (they are operands too)
+    all_texts += [(t, None) for t in ("CASE WHEN a1 THEN b2 ELSE c3 END", "CASE a1 WHEN 1 THEN b2 WHEN 2 THEN c3 END", "CASE WHEN a1 THEN b2 END",
+                                      "CASE WHEN a1 THEN CASE WHEN b2 THEN c3 ELSE d4 END ELSE e5 END", "CAST( a1 AS int )", "a1 :: int",
+                                      "a1 BETWEEN b2 AND c3", "a1 IN ( b2 , c3 )", "a1 IS NOT NULL", "EXISTS ( SELECT b2 FROM u3 )", "( a1 , b2 )")]
     for text, e in all_texts:
         ref = R.parse_raw(POSITIONS[0][1].format(e=text))
         if ref[0] != "ok":
